@@ -4,9 +4,9 @@
    CipherProvider).  Byte level, branch by branch; every Rust panic site on
    these paths is an explicit [Panic site].  The AEAD is an oracle
    [dec key nonce aad ciphertext : option plaintext] (function argument).
-   The C24 repair (a v5 reference-id request whose payload length is not a
-   multiple of 4 is rejected by the decoder) is mirrored when it is present in
-   the tree (constant C24_REPAIR, read from the sources on every run).
+   The model mirrors the tree WITH the C24 repair (branch fix-c24: a v5
+   reference-id request whose payload length is not a multiple of 4 is
+   rejected by ExtensionField::decode).
    Definitions only. *)
 From V Require Export Model.Bytes.
 From V Require Import Gen.ConstPacket.
@@ -133,8 +133,8 @@ Definition decode_field (tid : Z) (m : bytes) (v5 : bool) : res ef :=
   else if (tid =? T_REFREQ) && v5 then
     do r <- refreq_decode m;
     let '(plen, off) := r in
-    (* the C24 repair: present in the tree iff C24_REPAIR = 1 (read from the sources) *)
-    if (C24_REPAIR =? 0) || (plen mod 4 =? 0) then Ok (EfRefReq plen off) else Err E_IncorrectLength
+    (* the C24 repair (fix-c24): a request for a number of octets that is not a whole number of words is rejected *)
+    if plen mod 4 =? 0 then Ok (EfRefReq plen off) else Err E_IncorrectLength
   else if (tid =? T_REFRESP) && v5 then Ok (EfRefResp m)
   else Ok (EfUnknown tid m).
 
